@@ -1,6 +1,7 @@
 package main
 
 import (
+	"fmt"
 	"go/ast"
 	"go/types"
 	"sort"
@@ -26,6 +27,7 @@ func runC26(c *Ctx) {
 	c.Rule("v2-field-coverage", "every exported field of the v2 message types is read by the translator unless allow-listed", 20)
 	c.Rule("v2-oneof-arms", "both arms of each oneof are handled", 2)
 	c.Rule("v2-bad-ref-is-4xx", "translation error is answered with 400 before forwarding", 1)
+	c.Rule("v2-spans-one-to-one", "each v2 bucket span becomes one v1 span with the same offset and length", 1)
 	p := c.Load("pkg/receive")
 	if p == nil {
 		return
@@ -122,6 +124,63 @@ func runC26(c *Ctx) {
 		}
 	}
 	checkV2ErrorIs4xx(c, p, tr, guardFns, isCont)
+
+	// (4) bucket spans are translated one to one: every input span gives one output span whose fields are the
+	// same-named fields of that input span (plain copies or conversions, no arithmetic across spans, no span
+	// skipped). Span offsets are relative to the previous span, so dropping or merging spans moves buckets.
+	{
+		info := sp.Info()
+		var loop *ast.RangeStmt
+		inspectNoLit(sp.Body(), func(n ast.Node) bool {
+			if r, ok := n.(*ast.RangeStmt); ok && loop == nil {
+				loop = r
+			}
+			return true
+		})
+		bad := ""
+		switch {
+		case loop == nil || loop.Value == nil:
+			bad = "no loop over the input spans with an element variable"
+		case canon(loop.X) != namesOf(sp).P(0):
+			bad = "the loop ranges over " + canon(loop.X) + ", not over the whole input list"
+		default:
+			elem := objOf(info, loop.Value)
+			lits := 0
+			ast.Inspect(loop.Body, func(n ast.Node) bool {
+				switch v := n.(type) {
+				case *ast.BranchStmt:
+					bad = "`" + v.Tok.String() + "` skips input spans"
+				case *ast.CompositeLit:
+					if !isNamed(info.TypeOf(v), "prompb", "BucketSpan") {
+						return true
+					}
+					lits++
+					for _, el := range v.Elts {
+						kv, ok := el.(*ast.KeyValueExpr)
+						if !ok {
+							bad = "unkeyed span literal"
+							continue
+						}
+						val := unparen(kv.Value)
+						if call, ok := val.(*ast.CallExpr); ok && len(call.Args) == 1 {
+							if tv, ok := info.Types[call.Fun]; ok && tv.IsType() {
+								val = unparen(call.Args[0])
+							}
+						}
+						sel, ok := val.(*ast.SelectorExpr)
+						if !ok || objOf(info, sel.X) != elem || sel.Sel.Name != canon(kv.Key) {
+							bad = "output field " + canon(kv.Key) + " is " + canon(kv.Value) + ", not the input span's own " + canon(kv.Key)
+						}
+					}
+				}
+				return true
+			})
+			if lits != 1 && bad == "" {
+				bad = fmt.Sprintf("%d output span literals per input span", lits)
+			}
+		}
+		c.Check(bad == "", "v2-spans-one-to-one", "pkg/receive.translateV2SpansToV1", p.Pos(sp.Decl.Pos()), "span-translation-not-elementwise", bad)
+	}
 }
 
 // derivedParamContainers: parameters of package-local functions that receive a designated
